@@ -6,9 +6,13 @@
    the sign of (stored value - exact value), infinities counting as above/below
    every finite value, and it is Exact iff the stored value equals the exact
    value.  Instantiated with the C01 theorems this covers Add, Sub, Mul, Quo,
-   Set, SetPrec; the setters and FMA instantiate the same lemma in C03/C14. *)
+   Set, SetPrec; the integer/rational setters and SetMantExp follow below
+   (C02_setint64 ... C02_setmantexp); FMA and base-10 Parse carry the same
+   `result_spec` conclusion in C03_fma / C12_parse_decimal, to which
+   C02_acc_is_sign_of_error applies verbatim. *)
 From Coq Require Import ZArith QArith Qabs.
-From Dec Require Import Base.QPow L3.Decimal L3.Round L3.Arith Spec.Rounding L3.ArithProofs L3.AccProofs.
+From Dec Require Import Base.QPow L3.Decimal L3.Round L3.Convert L3.Arith Spec.Rounding L3.ArithProofs L3.AccProofs
+  L3.ConvertProofs L3.ConvProofs2 L3.AccProofs2.
 Open Scope Z_scope.
 
 Theorem C02_acc_is_sign_of_error : forall p md ng v z,
@@ -74,6 +78,47 @@ Print Assumptions C02_setprec.
 
 (* non-vacuity: an inexact quotient reports Below, an exact one Exact, an
    overflowing product Above *)
+(* the setters named by the property: the stored value is compared with the exact argument *)
+Theorem C02_setint64 : forall z x z', MinInt64 <= x <= MaxInt64 -> x <> 0 -> 0 <= prec z <= MaxPrec ->
+  SetInt64 z x = OkR z' ->
+  acc z' = xacc (value z') (if x <? 0 then - scaled (Z.abs x) 0 else scaled (Z.abs x) 0).
+Proof. exact SetInt64_acc. Qed.
+Print Assumptions C02_setint64.
+
+Theorem C02_setuint64 : forall z x z', 0 < x <= MaxUint64 -> 0 <= prec z <= MaxPrec ->
+  SetUint64 z x = OkR z' -> acc z' = xacc (value z') (scaled x 0).
+Proof. exact SetUint64_acc. Qed.
+Print Assumptions C02_setuint64.
+
+Theorem C02_newdecimal : forall x e z', MinInt64 <= x <= MaxInt64 -> x <> 0 ->
+  NewDecimal x e = OkR z' ->
+  acc z' = xacc (value z') (if x <? 0 then - scaled (Z.abs x) e else scaled (Z.abs x) e).
+Proof. exact NewDecimal_acc. Qed.
+Print Assumptions C02_newdecimal.
+
+Theorem C02_setint : forall z x D z',
+  x <> 0 -> Z.abs x < 10 ^ D -> 0 <= D -> D + 19 < 4294967296 - 18 -> 0 <= prec z <= MaxPrec ->
+  SetInt z x = OkR z' ->
+  acc z' = xacc (value z') (if x <? 0 then - scaled (Z.abs x) 0 else scaled (Z.abs x) 0).
+Proof. exact SetInt_acc. Qed.
+Print Assumptions C02_setint.
+
+Theorem C02_setrat : forall z num den Dn Dd z',
+  num <> 0 -> 1 < den -> Z.abs num < 10 ^ Dn -> den < 10 ^ Dd ->
+  0 <= Dn <= MaxExp -> 0 <= Dd <= MaxExp -> 0 <= prec z <= MaxPrec ->
+  Dn + Dd + setrat_prec z num den + 76 < 4294967296 - 18 ->
+  SetRat z num den = OkR z' ->
+  acc z' = xacc (value z') (if num <? 0 then - (inject_Z (Z.abs num) / inject_Z den) else inject_Z (Z.abs num) / inject_Z den).
+Proof. exact SetRat_acc. Qed.
+Print Assumptions C02_setrat.
+
+Theorem C02_setmantexp : forall same z m e z',
+  WF m -> dform m = Ffinite -> mdigits (mant m) < 4294967296 - 18 -> (same = true -> z = m) ->
+  SetMantExp same z m e = OkR z' ->
+  acc z' = xacc (value z') (if neg m then - (mag m * Qpow10 e) else mag m * Qpow10 e).
+Proof. exact SetMantExp_acc. Qed.
+Print Assumptions C02_setmantexp.
+
 Example C02_witness :
   let one := mkDec [1000000000000000000] 1 1 ToNearestEven Exact Ffinite false in
   let three := mkDec [3000000000000000000] 1 1 ToNearestEven Exact Ffinite false in
